@@ -1122,6 +1122,16 @@ var SetProductFunc = function.New(&function.Spec{
 		productVals := make([]cty.Value, total)
 		for i, vals := range product {
 			productVals[i] = cty.TupleVal(vals)
+			if !productVals[i].Type().Equals(productVals[0].Type()) {
+				// Only possible if the element type has dynamic placeholders
+				// that the members fill differently.
+				for _, arg := range args {
+					if !arg.IsWhollyKnown() {
+						return cty.UnknownVal(retType).WithMarks(retMarks), nil
+					}
+				}
+				return cty.NilVal, errors.New("all elements must be of the same type")
+			}
 		}
 
 		if retType.IsListType() {
